@@ -46,7 +46,8 @@
 (*                                                                         *)
 (* Every query is one action composed of the code's control points         *)
 (*   Probe ; (Hit -> Return) | (Miss -> Coerce ; Sane ; Expr ; Fill ; Ret) *)
-(* (operators DoorChecker, Coerce, CompileExpr, CSub ...); last records    *)
+(* (operators DoorChecker, Coerce, CompileExpr, CLook, SubEval); last      *)
+(* records                                                                 *)
 (* the answer, the declarative Fresh(q) and which path was taken.          *)
 (*                                                                         *)
 (* Legacy selects the keying discipline per table:                         *)
